@@ -25,6 +25,22 @@ Theorem c12_refinement : forall ops,
 Proof. exact (refinement endpoints_update_per_locality). Qed.
 Print Assumptions c12_refinement.
 
+(* an operation that returns an error (update of an existing router with a configuration NewRouters rejects - no virtual
+   hosts, duplicate default, unbuildable route ...; route change on an unknown domain, a nil routers object or with an
+   unbuildable route; host operation or endpoint assignment on a missing cluster; removal naming a missing cluster)
+   leaves the live objects AND the stored configuration exactly as they were - for every state, and inside every history *)
+Theorem c12_failed_step_changes_nothing : forall s o,
+  snd (step endpoints_update_per_locality s o) = false -> fst (step endpoints_update_per_locality s o) = s.
+Proof. exact (failed_step_changes_nothing endpoints_update_per_locality). Qed.
+Print Assumptions c12_failed_step_changes_nothing.
+
+Theorem c12_failed_update_changes_nothing : forall ops1 o ops2,
+  let s := final endpoints_update_per_locality ops1 in
+  snd (step endpoints_update_per_locality s o) = false ->
+  final endpoints_update_per_locality (ops1 ++ o :: ops2) = final endpoints_update_per_locality (ops1 ++ ops2).
+Proof. exact (failed_update_changes_nothing endpoints_update_per_locality). Qed.
+Print Assumptions c12_failed_update_changes_nothing.
+
 (* last update wins *)
 Theorem c12_last_router_update_wins : forall ops name c t, build c = Ok t ->
   let s := final endpoints_update_per_locality (ops ++ [OAddOrUpdateRouters name c]) in
@@ -101,6 +117,7 @@ Definition c12_ex_ops : list op :=
   [ OAddOrUpdateRouters "r" [Build_vhost ["a.com"] [c12_ex_route "one"]; Build_vhost ["*"] []];
     OAddOrUpdateRouters "r" [Build_vhost ["a.com"; "A.com"] []];
     OAddRoute "r" "nowhere" (c12_ex_route "added");
+    OAddOrUpdateRouters "r" [];
     OAddOrUpdateCluster "c" 1 [c12_h "10.0.0.9:80" 1];
     OAppendHosts "c" [c12_h "10.0.0.1:80" 1; c12_h "10.0.0.1:80" 2];
     OAppendHosts "c" [Build_host "10.0.0.1:80" 7 "new-name" true [("zone", "b")]];
@@ -111,7 +128,7 @@ Definition c12_ex_ops : list op :=
     OEndpoints "e" [[Build_endpoint "10.0.0.1:80" (Some 500)]; [Build_endpoint "10.0.0.2:80" None; Build_endpoint "10.0.0.1:80" (Some 3)]] ].
 Example c12_example :
   let (s, rs) := run endpoints_update_per_locality init_state c12_ex_ops in
-  rs = [true; false; true; true; true; true; true; true; false; true; true] /\
+  rs = [true; false; true; false; true; true; true; true; true; false; true; true] /\
   option_map cl_hosts (mget "c" (st_clusters s)) = Some [Build_host "10.0.0.1:80" 7 "new-name" true [("zone", "b")]] /\
   option_map cl_hosts (mget "e" (st_cfg_clusters s)) = Some [c12_h "10.0.0.1:80" 128; c12_h "10.0.0.2:80" 0] /\
   mget "d" (st_clusters s) = None /\
